@@ -201,7 +201,7 @@ class KeyType(StringType, prim='key'):
 
     def __lt__(self, other: 'KeyType') -> bool:  # type: ignore
         """
-        Keys are ordered as follows: edpk < sppk < p2pk
+        Keys are ordered as follows: edpk < sppk < p2pk < BLpk
         All keys are in compressed form in Tezos (flag | X) where flag specifies if Y is odd or even
         https://crypto.stackexchange.com/questions/70754/ec-key-compression
         For secp256r1 (aka p256) we need to cut the first byte (for unknown reason)
@@ -210,6 +210,7 @@ class KeyType(StringType, prim='key'):
             'edpk': (0, 0),
             'sppk': (1, 0),
             'p2pk': (2, 1),
+            'BLpk': (3, 0),
         }
         res = curves[self.prefix][0] - curves[other.prefix][0]
         if res < 0:
